@@ -274,3 +274,43 @@ doc_h!(chunk_u2_b1_cap5, U, 2, B, 1, 99, Some([2, 2, 9, 9, 9, 9]), 5, true, 18);
 doc_h!(chunk_u2_b1_pause, U, 2, B, 1, 99, Some([4, 0, 3, 9, 9, 9]), 16, false);
 doc_h!(chunkcut_u2_b1_at5_1s, U, 2, B, 1, 5, Some([1, 1, 1, 1, 1, 1]), 16, true);
 doc_h!(slice_u2_b1_cap0, U, 2, B, 1, 99, None, 0, true, 18);
+
+/// A 16-byte element that exactly fills the (capacity-16) buffer, followed by ONE dangling
+/// byte (the id of a truncated element): after the first element the buffer is fully
+/// consumed, so the end-of-stream probe decides between "one more byte" and "clean end".
+#[kani::proof]
+#[kani::unwind(18)]
+#[kani::stub(<core::io::CustomOwner as core::ops::Drop>::drop, stubs::noop_custom_owner_drop)]
+#[kani::stub(std::hash::RandomState::new, stubs::fixed_random_state)]
+fn cut_b14_then_one_byte() {
+    let p: [u8; 14] = kani::any();
+    let mut doc = [0u8; 17];
+    doc[0] = flat::B as u8;
+    doc[1] = 0x80 | 14;
+    let mut i = 0;
+    while i < 14 {
+        doc[2 + i] = p[i];
+        i += 1;
+    }
+    doc[16] = flat::U as u8;
+    let src: &[u8] = Box::leak(Box::new(doc));
+    let mut it: TagIterator<&[u8], FlatTag> = TagIterator::with_capacity(src, &[], 16);
+    kani::cover!(p[13] != 0, "non-zero last payload byte reached");
+    let r = it.next();
+    match &r {
+        Some(Ok(t)) => {
+            assert!(t.id == flat::B && matches!(t.val, Val::B(b) if b.len() == 14 && b[0] == p[0] && b[13] == p[13]), "C03b: binary value is exactly the payload bytes");
+            assert!(it.last_emitted_tag_offset() == 0, "C03b: first item at offset 0");
+        }
+        _ => assert!(false, "C12b: a completely contained element is emitted"),
+    }
+    core::mem::forget(r);
+    let r = it.next();
+    match &r {
+        Some(Err(e)) => assert!(matches!(kind_of(e), ErrKind::Eof { tag_start: 16, tag_id: Some(id), tag_size: None, .. } if id == flat::U),
+            "C12b: a single dangling byte after a tag boundary is an unexpected end of file at that byte, id present, no size"),
+        _ => assert!(false, "C12b: a cut one byte into the next element is an error, not a normal end (and not chunking-dependent: C04)"),
+    }
+    core::mem::forget(r);
+    core::mem::forget(it);
+}
